@@ -127,6 +127,27 @@ def gen_trace(seed, world, tier, mode=None):
     if not quiet and R.random() < 0.3:   # a foreign client between construction and compute
         steps.append({"k": "rng", "op": R.choice(["draw", "seed"]), "n": R.randint(1, 100),
                       "v": R.randrange(10 ** 6), "client": 1})
+    if not quiet and not midsize and not wrong and R.random() < 0.2:
+        # the solver object is not fresh: an easy problem (an isometry, slightly larger or of the
+        # same shape) was answered by it first - whatever that call left on the object (a flag,
+        # an iteration count, a cached sketch) must not leak into the judged call
+        if R.random() < 0.5:
+            dw = R.choice([0, 0, 1, 2])
+            mw, nw = m + dw, n + dw
+            Aw = {"gen": "psvd", "m": mw, "n": nw, "seed": R.randrange(10 ** 6), "sigma": [1.0] * min(mw, nw)}
+            cw, scw = 1.0, 0
+        else:
+            # ... or a NEARBY problem (a sequence of slowly changing matrices is what a reused
+            # solver typically sees): its answer is a tempting but wrong starting point, because
+            # its rows lie in the row space of the other matrix
+            mw, nw, cw, scw = m, n, cond, sc
+            c = 0.1 * (10.0 ** sc / cond) / (2.0 * (math.sqrt(m) + math.sqrt(n)))
+            Aw = {"gen": "add", "a": A, "b": {"gen": "scale", "c": round_sig(c, 3),
+                                              "of": {"gen": "gauss", "m": m, "n": n, "seed": R.randrange(10 ** 6)}}}
+        warm = {"k": "call", "obj": "s0", "meth": meth, "args": [Aw],
+                "tags": {"kind": kind, "m": mw, "n": nw, "cond": cw, "wrong_orientation": False, "scale": scw,
+                         "warmup": True}}
+        steps.append(warm)
     steps.append(call)
     return {"prop": PROP, "seed": seed, "world": world, "mode": "run", "steps": steps}
 
@@ -342,7 +363,7 @@ def violation_target(trace, v):
 
 
 def _call_of(trace):
-    for s in trace["steps"]:
+    for s in reversed(trace["steps"]):     # the judged call is the last one (a warm-up may precede it)
         if s["k"] == "call":
             return s, None
         if s["k"] == "sweep":
@@ -356,7 +377,8 @@ def signature(trace, result):
     t = call.get("tags", {})
     ev = tuple((s["k"], s.get("op")) for s in trace["steps"] if s["k"] in ("rng", "clock"))
     return repr((t.get("kind"), t.get("m"), t.get("n"), t.get("cond"), t.get("scale"), sorted(cfg.items(), key=str),
-                 "+".join(sorted(call.get("fault") or {})), bool(call.get("clock")), bool(sw), ev))
+                 "+".join(sorted(call.get("fault") or {})), bool(call.get("clock")), bool(sw), ev,
+                 sum(1 for s in trace["steps"] if s["k"] == "call")))
 
 
 def nontrivial(trace, result):
